@@ -440,6 +440,19 @@ func (in *Interp) strEq(a, b Str) Bool {
 	if len(sa) == 0 && len(sb) == 0 {
 		return Bool{C: true}
 	}
+	// character-class mismatch at either end: itoa renders as -?[0-9]+
+	if len(sa) > 0 && len(sb) > 0 {
+		isLit := func(g Seg) bool { return g.T == nil && g.Itoa == nil }
+		headClash := func(x, y Seg) bool {
+			return x.Itoa != nil && isLit(y) && len(y.Lit) > 0 && !(y.Lit[0] == '-' || (y.Lit[0] >= '0' && y.Lit[0] <= '9'))
+		}
+		tailClash := func(x, y Seg) bool {
+			return x.Itoa != nil && isLit(y) && len(y.Lit) > 0 && !(y.Lit[len(y.Lit)-1] >= '0' && y.Lit[len(y.Lit)-1] <= '9')
+		}
+		if headClash(sa[0], sb[0]) || headClash(sb[0], sa[0]) || tailClash(sa[len(sa)-1], sb[len(sb)-1]) || tailClash(sb[len(sb)-1], sa[len(sa)-1]) {
+			return Bool{C: false}
+		}
+	}
 	// itoa(x) == itoa(y)  <=>  x == y
 	if len(sa) == 1 && len(sb) == 1 && sa[0].Itoa != nil && sb[0].Itoa != nil {
 		return in.eqBV(sa[0].ItoaV, sb[0].ItoaV)
